@@ -225,3 +225,39 @@ func VerifPathLockWait() {
 	verifAssert(!verifFlockHeld(verifPath+".lock"), "the path lock is free at the end")
 	verifReach("end")
 }
+
+// VerifPathLockClose (C18): while File.Close is blocked by an active
+// transaction the file is still open: another Open must fail; afterwards the
+// path can be opened again.
+func VerifPathLockClose() {
+	verifOSReset()
+	opts := Options{MaxSize: 64 * verifPageSize, PageSize: verifPageSize}
+	f1, err := Open(verifPath, 0600, opts)
+	verifAssert(err == nil, "first Open succeeds")
+	var tx *Tx
+	if verifBool("readonly") {
+		tx, err = f1.BeginReadonly()
+	} else {
+		tx, err = f1.Begin()
+	}
+	verifAssert(err == nil, "Begin succeeds")
+	closed := false
+	go func() {
+		verifAssert(f1.Close() == nil, "Close succeeds")
+		closed = true
+	}()
+	verifPoll() // Close runs until it blocks on the active transaction
+	verifAssert(!closed, "Close waits for the active transaction")
+	verifAssert(verifFlockHeld(verifPath+".lock"), "the path lock is held while Close has not returned")
+	f2, err2 := Open(verifPath, 0600, opts)
+	verifAssert(err2 != nil && f2 == nil, "while Close has not returned, a second Open of the path fails")
+	verifAssert(tx.Close() == nil, "closing the transaction")
+	for k := 0; k < 4 && !closed; k++ {
+		verifPoll()
+	}
+	verifAssert(closed, "Close returns once the transaction is closed")
+	f3, err3 := Open(verifPath, 0600, opts)
+	verifAssert(err3 == nil && f3 != nil, "after Close the path can be opened again")
+	verifAssert(f3.Close() == nil, "Close succeeds")
+	verifReach("end")
+}
